@@ -24,12 +24,11 @@ OUT_PARAMS = {
 }
 
 # benign mutation sites on read paths, one line of reason each (function, normalised construct)
-BENIGN = {
-    ("rdflib.graph.Dataset.contexts", "self.graph(DATASET_DEFAULT_GRAPH_ID)"):
-        "idempotent registration of the default graph, which by definition always exists; adds no triple and the default graph is always listed by graphs()/contexts()",
-    ("rdflib.graph.Dataset.graphs", "self.graph(DATASET_DEFAULT_GRAPH_ID)"):
-        "same as Dataset.contexts (graphs() is its twin)",
-}
+# mutation sites on read paths that are accepted, with the reason.  Empty since F174: the two rows this table had
+# (`self.graph(DATASET_DEFAULT_GRAPH_ID)` in Dataset.contexts / Dataset.graphs, "idempotent registration of the default graph")
+# were a genuine defect - the registration is visible through store.contexts() and changes the order in which the quad
+# serializers write the graphs; the audit round found it, /repo commit f71a4649 removed it and the rows went with it.
+BENIGN: dict[tuple[str, str], str] = {}
 
 GRAPH_READ_METHODS = [
     "triples", "__iter__", "__len__", "__contains__", "__getitem__", "subjects", "predicates", "objects",
@@ -103,7 +102,7 @@ def run(repo: Repo, rep: Report) -> None:
     eff = Effects(repo)
     typed = repo.typed
 
-    rep.rule("C13.z-benign-sites", "mutation sites on read paths that are exempt by an explicit table row with a reason", floor=1)
+    rep.rule("C13.z-benign-sites", "mutation sites on read paths that are exempt by an explicit table row with a reason", floor=0)
     drop_benign(eff, rep, "C13.z-benign-sites")
     eff.solve()
     n_mut = sum(1 for f in eff.funcs.values() for e in f.events if e[0] == "mut")
